@@ -793,7 +793,16 @@ fn expr_to_asg_texpr(
             if !is_concatenation && right.get_type().is_quantum() {
                 context.insert_error(IncompatibleTypesError, &bin_expr.rhs().unwrap());
             }
-            Some(asg::BinaryExpr::new_texpr_with_cast(op, left, right))
+            // Operands that are not declared, or are quantum, have been reported already.
+            let operands_defined = [left.get_type(), right.get_type()]
+                .iter()
+                .all(|typ| **typ != Type::Undefined && !typ.is_quantum());
+            let texpr = asg::BinaryExpr::new_texpr_with_cast(op, left, right);
+            // `Void` means that the operand types have no common type.
+            if operands_defined && texpr.get_type() == &Type::Void {
+                context.insert_error(IncompatibleTypesError, &bin_expr);
+            }
+            Some(texpr)
         }
 
         synast::Expr::Literal(ref literal) => match literal_to_asg_texpr(literal) {
